@@ -107,6 +107,7 @@ let print_item show_exec = function
   | KUser (TAssertFail i) -> pf "assertfail %d\n" (int_of_nat i)
   | KExec (i, ts, p) -> if show_exec then pf "exec %d %s %s\n" (int_of_nat i) (hx ts) (str_pl p)
   | KRefused (ts, p) -> pf "refused %s %s\n" (hx ts) (str_pl p)
+  | KSched (ts, p) -> if show_exec then pf "sched %s %s\n" (hx ts) (str_pl p)
 
 let read_action () : float action =
   match next () with
